@@ -525,7 +525,39 @@ pub fn build_common(rng: &mut Rng, ctx: &mut Ctx, host: &str) -> (RequestBuilder
         url.push_str(frag);
         ctx.count("urls_with_fragment", 1);
     }
-    let mut rb = RequestBuilder::new(Method::from_bytes(method.as_bytes()).unwrap(), &url);
+    // a quarter of the requests with a standard method come from a Session that carries
+    // default header fields (set and appended, names may repeat): they are the caller's fields too
+    let session_method = matches!(method, "GET" | "POST" | "PUT" | "DELETE" | "PATCH" | "OPTIONS" | "TRACE");
+    let mut rb = if session_method && rng.chance(1, 4) {
+        let mut sess = attohttpc::Session::new();
+        let pool: Vec<String> = (0..2).map(|_| random_header_name(rng)).filter(|n| !is_reserved_name(n)).collect();
+        for _ in 0..rng.range(1, 4) {
+            if pool.is_empty() {
+                break;
+            }
+            let name = rng.pick(&pool).clone();
+            let value = random_header_value(rng);
+            if rng.chance(1, 3) {
+                sess.header(http::header::HeaderName::from_bytes(name.as_bytes()).unwrap(), &value[..]);
+                m.set(&name, &value);
+            } else {
+                sess.header_append(http::header::HeaderName::from_bytes(name.as_bytes()).unwrap(), &value[..]);
+                m.append(&name, &value);
+            }
+        }
+        ctx.count("requests_from_a_session_with_default_headers", 1);
+        match method {
+            "GET" => sess.get(&url),
+            "POST" => sess.post(&url),
+            "PUT" => sess.put(&url),
+            "DELETE" => sess.delete(&url),
+            "PATCH" => sess.patch(&url),
+            "OPTIONS" => sess.options(&url),
+            _ => sess.trace(&url),
+        }
+    } else {
+        RequestBuilder::new(Method::from_bytes(method.as_bytes()).unwrap(), &url)
+    };
     // params
     for _ in 0..rng.range(0, 3) {
         match rng.below(3) {
